@@ -4,6 +4,7 @@
 //! single-threaded. Nothing here changes behaviour; with the cfg off this module does not exist.
 
 pub use crate::frame_buffer::FrameBuffer;
+pub use crate::heartbeats::{Heartbeat, HeartbeatState};
 pub use crate::io_loop::verif_probe::*;
 
 use crate::connection_options::ConnectionOptions;
